@@ -143,6 +143,102 @@ def gen_pair(rng):
     return "".join(text), {"two_d": two_d, "strict": strict_kind, "near_miss": nm_kind, "wrap": wrap}
 
 
+CMPS = ["<", "<=", ">=", "==", ">"]
+
+
+def gen_guard_pair(rng):
+    """callee whose body is guarded by comparisons / bool parameters; the root contains a
+    hand-instantiated copy of the body (so that the kernel can be a near miss of the callee:
+    another comparison operator, another bool condition, operands swapped)"""
+    n = rng.choice([4, 6, 8])
+    kind = rng.choice(["cmp", "cmp", "bool1", "bool2"])
+    lines = [HEADER]
+    if kind == "cmp":
+        op = rng.choice(CMPS)
+        lines.append(f"""@proc
+def f(n: size, k: index, dst: [f32][n]):
+    assert k >= 0
+    for i in seq(0, n):
+        if i {op} k:
+            dst[i] = 1.0
+
+""")
+        kv = rng.choice([0, 1, 3])
+        # kernel: same guard (instance) or another operator (near miss)
+        miss = rng.random() < 0.6
+        op2 = rng.choice([o for o in CMPS if o != op]) if miss else op
+        lines.append(f"""@proc
+def root(a: f32[{n}], m: size):
+    for i in seq(0, {n}):
+        if i {op2} {kv}:
+            a[i] = 1.0
+""")
+        meta = {"family": "guard-cmp", "op": op, "kernel_op": op2, "near_miss": miss}
+    elif kind == "bool1":
+        lines.append(f"""@proc
+def f(n: size, b: bool, dst: [f32][n]):
+    for i in seq(0, n):
+        if b:
+            dst[i] = 2.0
+
+""")
+        cond = rng.choice(["m < 4", "m > 2", "i < m", "i + 1 < m", "m == 3"])
+        lines.append(f"""@proc
+def root(a: f32[{n}], m: size):
+    for i in seq(0, {n}):
+        if {cond}:
+            a[i] = 2.0
+""")
+        meta = {"family": "guard-bool", "cond": cond, "near_miss": "i" in cond.split()[0]}
+    else:
+        lines.append(f"""@proc
+def f(b: bool, d1: [f32][4], d2: [f32][4]):
+    if b:
+        d1[0] = 1.0
+    d2[0] = 1.0
+    if b:
+        d2[0] = 0.0
+
+""")
+        c1 = rng.choice(["m < 4", "m > 2"])
+        miss = rng.random() < 0.6
+        c2 = rng.choice(["m > 4", "m < 2", "m <= 4", "m == 4"]) if miss else c1
+        lines.append(f"""@proc
+def root(a: f32[4], c: f32[4], m: size):
+    if {c1}:
+        a[0] = 1.0
+    c[0] = 1.0
+    if {c2}:
+        c[0] = 0.0
+""")
+        meta = {"family": "guard-bool2", "c1": c1, "c2": c2, "near_miss": miss}
+    return "".join(lines), meta
+
+
+def one_guard(ctx, rng, ninputs):
+    text, meta = gen_guard_pair(rng)
+    try:
+        mod = load_program(text, ctx.scratch)
+    except CaseTimeout:
+        raise
+    except Exception:
+        ctx.stat("programs.rejected")
+        return
+    ctx.stat("programs.accepted")
+    sess = Session(mod, "root", text)
+    kernel = sess.cur
+    nb = len(kernel._loopir_proc.body)
+    st = {"op": "replace", "args": [{"k": "block", "path": [], "attr": "body", "lo": 0, "hi": nb}, {"k": "proc", "name": "f"}, {"k": "lit", "v": True}], "kw": {}}
+    r = apply_step(sess, st)
+    variant = "guard-miss" if meta.get("near_miss") else "guard-same"
+    ctx.stat("replace.attempted." + variant)
+    if r.status != "accepted":
+        ctx.stat("replace.rejected." + variant)
+        return
+    ctx.stat("replace.accepted." + variant)
+    judge(ctx, sess, kernel, r.proc, variant, meta, ninputs)
+
+
 def find_call(ir):
     for p, s in irutil.all_stmts(ir):
         if isinstance(s, LoopIR.Call):
@@ -155,6 +251,11 @@ def judge(ctx, sess, kernel, result, variant, meta, ninputs):
     k_ir, r_ir = kernel._loopir_proc, result._loopir_proc
     ctx.stat("evaluations")
     ctx.stat("replace.judged." + variant)
+    probs = irutil.validate(r_ir)
+    if probs and not irutil.validate(k_ir):
+        sig = {"prop": "C05", "monitor": "replace", "kind": "ill_scoped_result:" + probs[0]["kind"], "variant": variant}
+        ctx.violation(sig, mk_case(sess, sess.steps, "replace", None, {"problems": probs, "variant": variant, "meta": meta, "kernel": sstr(kernel, 2500), "after": sstr(result, 2500)}))
+        return
     j = equiv.judge(k_ir, r_ir, ctx.rng, ninputs)
     ctx.stat("inputs.judged", j["judged"])
     h = jhash([irutil.fingerprint(k_ir, alpha=True), variant])
@@ -275,7 +376,10 @@ def shard(ctx):
         ctx.rng = rng
         signal.setitimer(signal.ITIMER_REAL, 40)
         try:
-            one(ctx, rng, ctx.params["ninputs"])
+            if rng.random() < 0.35:
+                one_guard(ctx, rng, ctx.params["ninputs"])
+            else:
+                one(ctx, rng, ctx.params["ninputs"])
         except CaseTimeout:
             ctx.inconclusive("case_watchdog")
         finally:
